@@ -42,6 +42,12 @@ func isNodeType(t types.Type) bool {
 		strings.Contains(s, "/languages/") || strings.HasPrefix(s, "go/token.")
 }
 
+// plain data structs of other modules whose fields the repository reads and writes
+var transparentExt = map[string]bool{
+	"github.com/boyter/scc/processor.LanguageSummary": true,
+	"github.com/boyter/scc/processor.FileJob":         true,
+}
+
 func (s *sorts) of(t types.Type) string {
 	switch u := t.(type) {
 	case *types.Named:
@@ -54,7 +60,7 @@ func (s *sorts) of(t types.Type) string {
 			}
 			return "Int"
 		}
-		if _, ok := u.Underlying().(*types.Struct); ok && u.Obj().Pkg() != nil && !strings.HasPrefix(u.Obj().Pkg().Path(), modPath) {
+		if _, ok := u.Underlying().(*types.Struct); ok && u.Obj().Pkg() != nil && !strings.HasPrefix(u.Obj().Pkg().Path(), modPath) && !transparentExt[u.Obj().Pkg().Path()+"."+u.Obj().Name()] {
 			// struct types of other modules / the standard library are opaque values
 			return s.opq(u.Obj().Pkg().Name() + "_" + u.Obj().Name())
 		}
